@@ -61,7 +61,8 @@ theorem deliverPC_regAck (w : World) (pre : List PMsg) (s nx n : Nat) (hnet : w.
     (hcs : w.c.session = 0 ∨ w.c.session = s) :
     let w' := (w.step (.deliverPC (w.netPC.length - 1))).1
     w'.p = w.p ∧ w'.c.session = s ∧ w'.c.nonce = n ∧ w'.c.window = w.c.window ∧ w'.c.failed = false ∧
-    w'.netCP = w.netCP ++ [.request s n w'.c.confirmedSeq (w'.c.confirmedSeq + w.c.window) true] := by
+    w'.netCP = w.netCP ++ [.request s n w'.c.confirmedSeq (w'.c.confirmedSeq + w.c.window) true] ∧
+    w'.c.hasProducer = true ∧ w'.c.requestUpToSeq = w'.c.confirmedSeq + w.c.window := by
   simp only [World.step, hnet, getLast_snoc, eraseLast_snoc, World.stepC, Consumer.handle, hf, Bool.false_eq_true, if_false]
   unfold Consumer.handleRegAck
   simp only [hp, Bool.not_true, Bool.false_eq_true, if_false, hn, bne_self_eq_false]
@@ -156,10 +157,11 @@ theorem deliverCP_request (w : World) (pre : List CMsg) (cc win : Nat)
     (hle : w.p.confirmedSeq ≤ cc) (hcur : cc ≤ w.p.currentSeq) (hw1 : 1 ≤ win) (hw2 : win ≤ maxWindow) :
     let w' := (w.step (.deliverCP (w.netCP.length - 1))).1
     w'.c = w.c ∧ w'.p.failed = false ∧ w'.p.confirmedSeq = cc ∧
-    ∀ mm, w'.p.unconfirmed.head? = some mm → PMsg.sequenced w'.p.session mm.id mm.seq mm.payload ∈ w'.netPC := by
+    (∀ mm, w'.p.unconfirmed.head? = some mm → PMsg.sequenced w'.p.session mm.id mm.seq mm.payload ∈ w'.netPC) ∧
+    w'.p.session = w.p.session := by
   have hq := request_resends w.p cc win hf hr hpc hle hcur hw1 hw2
   simp only [World.step, hnet, getLast_snoc, eraseLast_snoc, World.stepP, Producer.handle, hf, Bool.false_eq_true, if_false]
-  refine ⟨trivial, hq.1, hq.2.1, ?_⟩
+  refine ⟨trivial, hq.1, hq.2.1, ?_, hq.2.2.1⟩
   intro mm hmm
   rw [hq.2.2.1]
   exact List.mem_append_right _ (mem_pcOf (hq.2.2.2 mm hmm))
@@ -178,8 +180,10 @@ theorem recover_is_script (w : World) : ∃ ss : List Step, ss.length = 5 ∧ (w
 
 theorem recover_progress (w : World) (m : Mon) (h : Inv w m) (h2 : Inv2 w) (h3 : Inv3 w) :
     (recover w).p.failed = false ∧ (recover w).p.confirmedSeq = (recover w).c.confirmedSeq ∧
-    ∀ mm, (recover w).p.unconfirmed.head? = some mm →
-      PMsg.sequenced (recover w).p.session mm.id mm.seq mm.payload ∈ (recover w).netPC := by
+    (∀ mm, (recover w).p.unconfirmed.head? = some mm →
+      PMsg.sequenced (recover w).p.session mm.id mm.seq mm.payload ∈ (recover w).netPC) ∧
+    (recover w).c.hasProducer = true ∧ (recover w).c.session = (recover w).p.session ∧
+    (recover w).c.requestUpToSeq = (recover w).c.confirmedSeq + (recover w).c.window := by
   simp only [recover]
   -- world 1 and 2: two ticks
   have t1 := tickC_facts w h.cl.nf
@@ -206,7 +210,7 @@ theorem recover_progress (w : World) (m : Mon) (h : Inv w m) (h2 : Inv2 w) (h3 :
   have i4 := i3.step (.deliverPC (w3.netPC.length - 1))
   have j4 := j3.step i3 (.deliverPC (w3.netPC.length - 1))
   have k4 := k3.step i3 (.deliverPC (w3.netPC.length - 1))
-  obtain ⟨r4p, r4sess, r4nonce, r4win, r4f, r4net⟩ := r4
+  obtain ⟨r4p, r4sess, r4nonce, r4win, r4f, r4net, r4hp, r4up⟩ := r4
   generalize (w3.step (.deliverPC (w3.netPC.length - 1))).1 = w4 at *
   -- world 5: the timeout Request reaches the producer controller
   have e1 : w2.p.session = w4.p.session := by rw [r4p]; exact r3sess.symm
@@ -214,7 +218,8 @@ theorem recover_progress (w : World) (m : Mon) (h : Inv w m) (h2 : Inv2 w) (h3 :
   rw [e1, e2, ← r4win] at r4net
   have hcur : w4.c.confirmedSeq ≤ w4.p.currentSeq := by rw [← i4.pl.len]; exact i4.cl.cle
   have r5 := deliverCP_request w4 _ _ _ r4net j4.u.nf (by rw [r4p]; exact r3reg) k4.pc k4.pcle hcur k4.wpos j4.win
-  obtain ⟨r5c, r5f, r5conf, r5head⟩ := r5
-  exact ⟨r5f, by rw [r5conf, r5c], r5head⟩
+  obtain ⟨r5c, r5f, r5conf, r5head, r5sess⟩ := r5
+  exact ⟨r5f, by rw [r5conf, r5c], r5head, by rw [r5c]; exact r4hp, by rw [r5c, r5sess, r4sess, e1],
+    by rw [r5c, r4up, r4win]⟩
 
 end GoaktVerif.C42
